@@ -1,6 +1,6 @@
 -------------------------------- MODULE ArTxt --------------------------------
 (* ppci.binutils.archive: an archive is an ordered collection of object      *)
-(* files, saved as one JSON document {"objects": [ object, ... ]} and loaded  *)
+(* files, saved as one JSON document holding the list of members and loaded  *)
 (* back.  The clauses of the round trip, over a record                        *)
 (*   r = [n, saved = [ok, exc], doc = [ok, keys, nobjects] (shape of the      *)
 (*        saved document), loaded = [ok, exc], before / after = projections   *)
@@ -12,7 +12,7 @@ EXTENDS Naturals, Sequences, FmtBytes
 ArFailures(r) ==
     Fails("ArSaved", r.saved.ok)
     \cup (IF ~r.saved.ok THEN {} ELSE
-          Fails("ArDocument", r.doc.ok /\ r.doc.keys = <<"objects">> /\ r.doc.nobjects = r.n)
+          Fails("ArDocument", r.doc.ok /\ r.doc.nobjects = r.n)      \* one JSON object holding the list of the n members
           \cup Fails("ArLoaded", r.loaded.ok)
           \cup (IF ~r.loaded.ok THEN {} ELSE
                 Fails("ArCount", Len(r.after) = r.n /\ Len(r.before) = r.n)
